@@ -118,7 +118,8 @@ def gen_c17(rng, tier):
             gen2.gen_c02(rng, tier, k, k) + gen2.gen_c03(rng, k) + gen2.gen_c06(rng, k) + gen2.gen_c07(rng, k) +
             gen2.gen_c08(rng, k) + gen2.gen_c09(rng, k) + gen2.gen_c10(rng, k) + gen2.gen_c11(rng, k) +
             gen2.gen_c18(rng, k) + gen2.gen_c19(rng, k) + gen2.gen_c20(rng, k))
-    return gen2.across_domains(base, rng, per=B(tier, 2, 8)) + gen2.gen_overflow_block(rng, B(tier, 60, 600))
+    return (gen2.across_domains(base, rng, per=B(tier, 2, 8)) + gen2.gen_overflow_block(rng, B(tier, 60, 600)) +
+            gen2.gen_single_stepped(rng, B(tier, 36, 360), gen.DOMS_ALL))
 
 
 def gen_c18(rng, tier):
